@@ -1,5 +1,7 @@
 """What MANIFEST.json claims; edit here and run tools/make_manifest.py."""
-FIX_COMMITS = []
+import subprocess
+FIX_COMMITS = [l for l in subprocess.run(['git', '-C', '/repo', 'log', '--format=%h %s', '8203d59..HEAD'],
+                                         capture_output=True, text=True).stdout.strip().split('\n') if l.split(' ', 1)[-1].startswith('fix:')]
 
 CLAIMS = {
  'C01': {
@@ -37,6 +39,18 @@ CLAIMS = {
           'The model is hand-written; it is tied to detect_sources by exhaustive comparison over all binary images up to 3x3 (x connectivity x npixels) plus random dyadic images with ties/NaN/inf/2-D thresholds/masks, '
           'comparing label array, areas and slices exactly. detect_threshold and SourceFinder(deblend=False) are probed on the implementation only.',
   'note': 'Trusted: Lean kernel + standard axioms; the hand model (Model/CCL.lean) tied by differential testing only; scipy.ndimage.label is not assumed (its result is compared); sigma-clipped branch of detect_threshold not modelled.',
+ },
+ 'C05': {
+  'design_ref': 'DESIGN.md §5 C05',
+  'technique': 'Lean 4 invariant proof by induction over operation histories on a state-machine model whose cache table is regenerated from core.py + history correspondence',
+  'text': 'Proved in Lean for EVERY finite history of reads and mutators (reassign, relabel_consecutive, keep/remove labels, remove_masked/border_labels, data assignment) from any initial array: '
+          'every cached attribute (labels, raw slices, slices, areas, nlabels, max_label) equals the attribute derived from the current array, i.e. what a fresh object computes (history_inv, history_reads_fresh). '
+          'The inductive step is discharged against the mutator table extracted from the source on every run (Gen/SegmTable.lean: does the mutator call _reset_lazyproperties before replacing _data, which __dict__ entries it re-seeds): '
+          'commit_reassign_inv, commit_setter_inv, commit_relabel_inv are the table obligations - the last needs relabel_labels (consecutive renumbering yields labels start..start+N-1, no gaps) and relabel_slices (old slices stay valid). '
+          'Also proved: labels recovered from cached _raw_slices are the labels (labelsFromRaw_dRaw), a zero border width changes nothing (removeBorder_zero_noop), every label mutator keeps the deblended-label map naming only present labels '
+          '(mutators_keep_dmap_sound) and data assignment resets it (setData_dmap). The data effect of the mutators is code-shaped in the model and tied by correspondence (random histories incl. invalid arguments, 4 dtypes, objects from the constructor, detect_sources and deblend_sources; '
+          'label array and deblend map compared after every step) plus a fresh-object oracle on every public derived attribute. [partial] dtype range preservation and polygon geometry are checked on the implementation only.',
+  'note': 'Trusted: Lean kernel + standard axioms; table extractor tools/extract_tables.py; hand model Model/Segm.lean tied by differential testing; reading of the statement about deblend maps as in DESIGN §5 C05. Known finding F2b (non-connected label: polygons per region).',
  },
 }
 
